@@ -282,6 +282,22 @@ def opClosedForm (op : String) : P String := do
       return "ok " ++ renderArr ((Mat.ofStore Sw).toArray ++ (Mat.ofStore Sb).toArray)
   | _ => throw s!"unknown op {op}"
 
+def readStore (K : Type) [Wire K] [Scalar K] (r c : Nat) : P (Vector (Vector K c) r) := do
+  let a ← arr K (r * c)
+  return Vector.ofFn fun i => Vector.ofFn fun j => a.getD (i.val * c + j.val) 0
+
+/-- C11: replay of the ITML solver (Float twin) -/
+def opItml : P String := do
+  let d ← nat; let m ← nat; let numPos ← nat
+  let γ ← scalar Float; let tol ← scalar Float; let maxIter ← nat
+  let u ← scalar Float; let l ← scalar Float
+  let A0 ← readStore Float d d
+  let vs ← readStore Float m d
+  finish
+  let s0 : ItmlState Float d m := itmlInit A0 numPos u l
+  let (s, it) := itmlRun γ tol numPos vs maxIter 0 s0 s0.lam
+  return s!"ok {it} " ++ renderArr ((Mat.ofStore s.A).toArray ++ s.lam.toArray ++ s.bhat.toArray)
+
 def optInt : P (Option Int) := do
   let t ← next
   if t == "none" then return none
@@ -320,6 +336,7 @@ def dispatch : P String := do
   | "sdp_check" | "cfm_eig" | "cfm_diag" | "pinv_eig" | "init_metric" => opPsd op
   | "pairs" | "chunks" | "knn_class" | "knn_clip" => opConstraints op
   | "form" => opForm
+  | "itml_run" => opItml
   | "cov" | "rca_inner" | "lfda_scatter" => opClosedForm op
   | "wiring" => opWiring
   | "check_input" => opCheckInput
